@@ -189,7 +189,9 @@ func (e *Engine) BuildQuery(facts []*Term, goal *Term, solver string, lenBound b
 				for _, b := range s.Bodies {
 					q.scan(b)
 				}
-				q.scan(s.Guard)
+				if s.Guard != nil {
+					q.scan(s.Guard)
+				}
 				for _, p := range s.Params {
 					q.noteSort(p.Sort)
 				}
@@ -378,17 +380,27 @@ func (e *Engine) BuildQuery(facts []*Term, goal *Term, solver string, lenBound b
 			syms = append(syms, s)
 		}
 	}
-	for s := range q.syms {
-		if s.inProg || s.Bodies == nil {
-			return "", fmt.Errorf("spec function %s used before its definition is complete", s.Fn.Name())
-		}
-	}
 	argList := func(s *SpecSym) string {
 		var as []string
 		for _, a := range s.ArgSorts {
 			as = append(as, a.Name)
 		}
 		return strings.Join(as, " ")
+	}
+	for s := range q.syms {
+		if s.Uninterpreted {
+			continue
+		}
+		if s.inProg || s.Bodies == nil {
+			return "", fmt.Errorf("spec function %s used before its definition is complete", s.Fn.Name())
+		}
+	}
+	for _, s := range syms {
+		if s.Uninterpreted {
+			for i, n := range s.names {
+				p("(declare-fun %s (%s) %s)", smtName(n), argList(s), s.ResSorts[i].Name)
+			}
+		}
 	}
 	// symbols used inside triggers cannot be macros: they are declared and given a definitional axiom
 	opaque := map[string]bool{}
@@ -452,14 +464,14 @@ func (e *Engine) BuildQuery(facts []*Term, goal *Term, solver string, lenBound b
 		}
 	}
 	for _, s := range syms {
-		if !s.Recursive && isOpaque(s) {
+		if !s.Recursive && isOpaque(s) && !s.Uninterpreted {
 			for i, n := range s.names {
 				p("(declare-fun %s (%s) %s)", smtName(n), argList(s), s.ResSorts[i].Name)
 			}
 		}
 	}
 	for _, s := range syms { // e.Defs.order is a post-order: dependencies first
-		if s.Recursive {
+		if s.Recursive || s.Uninterpreted {
 			continue
 		}
 		if isOpaque(s) {
